@@ -187,6 +187,7 @@ _EXTERNAL_ALIASES = {
     "asyncio.gather": "asyncio.tasks.gather",
     "asyncio.Lock": "asyncio.locks.Lock",
     "asyncio.Event": "asyncio.locks.Event",
+    "marshmallow.Schema": "marshmallow.schema.Schema",
 }
 
 
@@ -1384,6 +1385,38 @@ class Interp:
                 return [Target("external", fullname=f"{exts[0] if exts else 'builtins.object'}.{fn.attr}", argtypes=argtypes)]
             callee = self.make_callee(meth, runcls)
             return [Target("repo", frame=self.bind_call(callee, call, fr, fr.V, facts=self._facts_ctx))]
+        # 1b. an attribute of self that holds a bound method of another attribute, stored once (`self._dump =
+        # self._schema.dump`): the call is the call of that method
+        if isinstance(fn, ast.Attribute) and isinstance(fn.value, ast.Name) and fr.func.cls is not None and fr.func.positional_params[:1] == [fn.value.id] and fr.func.cls.find_method(fn.attr) is None and not getattr(self, "_in_alias", False):
+            stores_ = []
+            for c_ in (fr.callee.cls or fr.func.cls).repo_mro():
+                for fl_ in c_.methods.values():
+                    for f_ in fl_:
+                        for n_ in self.own_nodes(f_):
+                            if isinstance(n_, (ast.Assign, ast.AnnAssign)) and n_.value is not None and any(isinstance(t_, ast.Attribute) and t_.attr == fn.attr and isinstance(t_.value, ast.Name) and t_.value.id == f_.positional_params[0] for t_ in (n_.targets if isinstance(n_, ast.Assign) else [n_.target]) if f_.positional_params):
+                                stores_.append((f_, n_.value))
+            if len(stores_) == 1 and isinstance(stores_[0][1], ast.Attribute) and isinstance(stores_[0][1].value, ast.Attribute) and isinstance(stores_[0][1].value.value, ast.Name) and stores_[0][1].value.value.id == stores_[0][0].positional_params[0] and stores_[0][0].name == "__init__":
+                sv_ = stores_[0][1]
+                synth = ast.copy_location(ast.Call(func=ast.copy_location(ast.Attribute(value=ast.copy_location(ast.Attribute(value=ast.copy_location(ast.Name(id=fn.value.id, ctx=ast.Load()), fn), attr=sv_.value.attr, ctx=ast.Load()), fn), attr=sv_.attr, ctx=ast.Load()), fn), args=call.args, keywords=call.keywords), call)
+                # typed facts of the stored method reference stand in for the call's
+                bt_ = p.type_of(stores_[0][0].module, sv_.value) or ""
+                if bt_:
+                    base_ = bt_.split("[")[0].replace(" | None", "")
+                    full_ = f"{base_}.{sv_.attr}"
+                    d_ = p.lookup_fullname(full_)
+                    if d_ is not None and d_.kind == "func":
+                        return [Target("repo", frame=self.bind_call(self.make_callee(d_.obj, d_.obj.cls), call, fr, fr.V, skip_first=True, facts=self._facts_ctx))]
+                    dc_ = p.lookup_fullname(base_)
+                    if dc_ is not None and dc_.kind == "class":
+                        meth_ = dc_.obj.find_method(sv_.attr)
+                        if meth_ is not None:
+                            return [Target("repo", frame=self.bind_call(self.make_callee(meth_, dc_.obj), call, fr, fr.V, skip_first=True, facts=self._facts_ctx))]
+                        from . import summaries as _S
+
+                        for ext_ in [b for b in dc_.obj.mro() if isinstance(b, str)]:
+                            ext_ = _EXTERNAL_ALIASES.get(ext_, ext_)
+                            if f"{ext_}.{sv_.attr}" in _S.SUMMARIES:
+                                return [Target("external", fullname=f"{ext_}.{sv_.attr}", argtypes=argtypes)]
         # 2. own evaluation of the callee expression (function values)
         if not (isinstance(fn, ast.Name) and fn.id == "getattr"):
             vals = self.eval(fn, fr) if not for_value or True else frozenset()
